@@ -532,6 +532,18 @@ func ruleCommitAfterSuccess(c *Ctx, r *R, prefix string) {
 											}
 										}
 									}
+									// the receiver is in a named state (s.state == whileFetch): as good as a false flag
+									if cf, ok := g.asCmp(); ok && cf.op == token.EQL {
+										if ld, ok := cf.x.(*ssa.UnOp); ok && ld.Op == token.MUL {
+											if _, base2, ok := rootField(ld.X); ok && base2 == ssa.Value(recv) {
+												if nt, isN := ld.Type().(*types.Named); isN && isIntType(nt.Underlying()) {
+													if _, isK := cf.y.(*ssa.Const); isK {
+														dead = true
+													}
+												}
+											}
+										}
+									}
 									if cf, ok := g.asCmp(); ok {
 										if ld, ok := cf.x.(*ssa.UnOp); ok && ld.Op == token.MUL && cf.op == token.EQL && isNilConst(cf.y) {
 											if f2, base2, ok := rootField(ld.X); ok && base2 == ssa.Value(recv) && f2 == fld {
